@@ -60,7 +60,7 @@ func HashName(cfg reftable.Config) string {
 var initCache = map[string]map[string][]byte{}
 
 func InitialDir(kind string, cfg reftable.Config) (map[string][]byte, error) {
-	key := kind + "/" + HashName(cfg)
+	key := fmt.Sprintf("%s/%s/%v", kind, HashName(cfg), cfg.SkipNameCheck)
 	if m, ok := initCache[key]; ok {
 		return m, nil
 	}
@@ -87,14 +87,23 @@ func InitialDir(kind string, cfg reftable.Config) (map[string][]byte, error) {
 		case "cancel":
 			// the two oldest tables cancel out entirely (create then delete): compacting them yields no table
 			ids = []string{"name:refs/c", "del:refs/c", "i3"}
+		case "high2":
+			ids = []string{"i1", "i2"}
 		case "four":
 			ids = []string{"i1", "i2", "i3", "i4"}
 		default:
 			return fmt.Errorf("unknown initial stack %q", kind)
 		}
-		for _, id := range ids {
+		for i, id := range ids {
 			t := Txn(id)
-			if err := st.Add(func(wr *reftable.Writer) error { return t.Write(wr, st.NextUpdateIndex(), HashSize(cfg)) }); err != nil {
+			first := i == 0 && strings.HasPrefix(kind, "high")
+			if err := st.Add(func(wr *reftable.Writer) error {
+				ui := st.NextUpdateIndex()
+				if first {
+					ui = 1 << 32 // a stack whose update indices start above 2^32
+				}
+				return t.Write(wr, ui, HashSize(cfg))
+			}); err != nil {
 				return fmt.Errorf("initial Add(%s): %v", id, err)
 			}
 		}
